@@ -296,12 +296,16 @@ impl Evaluator<'_, '_, '_, '_> {
                 let to = self.evaluate_expr(to)?.unwrap_number()?;
 
                 let from = usize::try_from(from).unwrap_or(0);
-                let to = usize::try_from(to).unwrap_or(0);
 
                 let var_index = self.get_variable_index(*variable_index)?;
-                let count = self
-                    .get_var_matches()
-                    .map(|var_matches| var_matches.count_matches_in(var_index, from, to))?;
+                let count = match usize::try_from(to) {
+                    Ok(to) => self
+                        .get_var_matches()
+                        .map(|var_matches| var_matches.count_matches_in(var_index, from, to))?,
+                    // A negative upper bound means an empty range: do not count a match
+                    // at offset 0.
+                    Err(_) => self.get_var_matches().map(|_| 0)?,
+                };
 
                 Ok(Value::Integer(count.into()))
             }
